@@ -168,7 +168,8 @@ Exchange exchange(bool tls, const QByteArray &request, int split, int pauseMs = 
     }
     if (!tls || enc) {
         int k = qBound(0, split, request.size());
-        client.write(request.left(k)); client.flush(); pumpMs(pauseMs);      // a long pause: the connection simply lives that long
+        client.write(request.left(k)); client.flush(); if (pauseMs >= 0) pumpMs(pauseMs);      // negative: both parts leave back to back (two TLS records in one read at the server)
+             // a long pause: the connection simply lives that long
         client.write(request.mid(k)); client.flush();
         pumpTill([&]() { return client.state() == QAbstractSocket::UnconnectedState; }, 8000);
     }
